@@ -672,6 +672,123 @@ theorem addRecord_refines (msg : aoltypes.MsgAddRecordRequest) (hwf : WF w) :
         · have hh' := bool_false_of_not hh
           simp only [hhas, hh', Bool.not_false, if_true, Sim]; rfl
 
+/-! ## histories: the translated message server, run as baseapp runs it -/
+
+/-- a message for the translated server -/
+inductive GMsg where
+  | createTopic (m : aoltypes.MsgCreateTopicRequest)
+  | addWriter (m : aoltypes.MsgAddWriterRequest)
+  | deleteWriter (m : aoltypes.MsgDeleteWriterRequest)
+  | addRecord (m : aoltypes.MsgAddRecordRequest)
+
+def GMsg.toModel : GMsg → Aol.Msg
+  | .createTopic m => .createTopic m.TopicName m.Description m.OwnerAddress
+  | .addWriter m => .addWriter m.TopicName m.Moniker m.Description m.WriterAddress m.OwnerAddress
+  | .deleteWriter m => .deleteWriter m.TopicName m.WriterAddress m.OwnerAddress
+  | .addRecord m => .addRecord m.TopicName m.Key m.Value m.WriterAddress m.OwnerAddress m.FeePayerAddress
+
+/-- did the handler accept, and with which world -/
+def accepted {ρ : Type} (g : P (Option ρ × Go.Err × World)) : Option World :=
+  match g with
+  | .ok (some _, none, w') => some w'
+  | _ => none
+
+/-- One message delivered by baseapp: the handler runs on a branch of the state with the block time of the
+header; the branch is written back only when the handler returns a response and no error (a returned
+error or a panic discards it). -/
+def genStep (w : World) (op : Int × GMsg) : World :=
+  let w1 : World := { w with blockTimeNano := op.1 }
+  let r := match op.2 with
+    | .createTopic m => accepted (aolkeeper.msgServer.CreateTopic bech (some m) w1)
+    | .addWriter m => accepted (aolkeeper.msgServer.AddWriter bech (some m) w1)
+    | .deleteWriter m => accepted (aolkeeper.msgServer.DeleteWriter bech (some m) w1)
+    | .addRecord m => accepted (aolkeeper.msgServer.AddRecord bech (some m) w1)
+  r.getD w1
+
+def genRun (w : World) (ops : List (Int × GMsg)) : World := ops.foldl (genStep bech) w
+
+def stateOf (m : Outcome (Aol.State × Aol.Resp)) (d : Aol.State) : Aol.State :=
+  match m with
+  | .ok (s', _) => s'
+  | _ => d
+
+theorem step_stateOf (c : CompKey.AddrCodec) (s : Aol.State) (now : Int) (msg : Aol.Msg) :
+    Aol.step c s (now, msg) = stateOf (Aol.handle c now s msg) s := by
+  unfold Aol.step stateOf
+  generalize Aol.handle c now s msg = r
+  cases r <;> rfl
+
+theorem sim_accepted {ρ : Type} (w1 : World) (g : P (Option ρ × Go.Err × World)) (m : Outcome (Aol.State × Aol.Resp))
+    (R : ρ → Aol.Resp → Prop) (hwf : WF w1) (h : Sim w1 g m R) :
+    abs ((accepted g).getD w1) = stateOf m (abs w1) ∧ WF ((accepted g).getD w1) := by
+  unfold Sim at h
+  cases m with
+  | ok p =>
+    obtain ⟨s', r⟩ := p
+    obtain ⟨v, w', hg, ha, hw, _, _⟩ := h
+    subst hg
+    exact ⟨ha, hw⟩
+  | err c =>
+    simp only at h; subst h
+    exact ⟨rfl, hwf⟩
+  | panic s =>
+    obtain ⟨s', hg⟩ := h
+    subst hg
+    exact ⟨rfl, hwf⟩
+
+/-- **One delivered message**: `abs` commutes with the step, and well-formedness is kept. -/
+theorem genStep_abs (op : Int × GMsg) (hwf : WF w) :
+    abs (genStep bech w op) = Aol.step (toCodec bech) (abs w) (op.1, op.2.toModel) ∧ WF (genStep bech w op) := by
+  obtain ⟨now, g⟩ := op
+  have hwf1 : WF ({ w with blockTimeNano := now } : World) := hwf
+  have habs1 : abs ({ w with blockTimeNano := now } : World) = abs w := rfl
+  rw [step_stateOf]
+  unfold genStep
+  cases g with
+  | createTopic m =>
+    have := sim_accepted _ _ _ _ hwf1 (createTopic_refines bech { w with blockTimeNano := now } m hwf1)
+    rw [habs1] at this
+    exact this
+  | addWriter m =>
+    have := sim_accepted _ _ _ _ hwf1 (addWriter_refines bech { w with blockTimeNano := now } m hwf1)
+    rw [habs1] at this
+    exact this
+  | deleteWriter m =>
+    have := sim_accepted _ _ _ _ hwf1 (deleteWriter_refines bech { w with blockTimeNano := now } m hwf1)
+    rw [habs1] at this
+    exact this
+  | addRecord m =>
+    have := sim_accepted _ _ _ _ hwf1 (addRecord_refines bech { w with blockTimeNano := now } m hwf1)
+    rw [habs1] at this
+    exact this
+
+/-- **Every history**: running the translated message server over any list of messages, from any
+well-formed world, gives a world that stands for exactly the state the model reaches — so every theorem
+about `Aol.run` (C01, C02, C13) is a theorem about the code as translated. -/
+theorem genRun_abs (ops : List (Int × GMsg)) : ∀ (w : World), WF w →
+    abs (genRun bech w ops) = Aol.run (toCodec bech) (abs w) (ops.map fun op => (op.1, op.2.toModel)) ∧
+    WF (genRun bech w ops) := by
+  induction ops with
+  | nil => intro w h; exact ⟨rfl, h⟩
+  | cons op ops ih =>
+    intro w h
+    have hs := genStep_abs bech w op h
+    have := ih (genStep bech w op) hs.2
+    unfold genRun Aol.run at this ⊢
+    simp only [List.foldl_cons, List.map_cons]
+    rw [← hs.1]
+    exact this
+
+/-- the empty store is well-formed and stands for the empty state -/
+theorem wf_empty : WF ({} : World) :=
+  { sorted := by unfold World.store; simp [Map.Sorted, Map.keys]
+    owners := by intro k v h; simp [World.store, Map.get] at h
+    topics := by intro k v h; simp [World.store, Map.get] at h
+    writers := by intro k v h; simp [World.store, Map.get] at h
+    records := by intro k v h; simp [World.store, Map.get] at h }
+
+theorem abs_empty : abs ({} : World) = {} := rfl
+
 end handlers
 
 end Panacea.Refine.Aol
